@@ -56,15 +56,25 @@ def one_pass(tier, esm, verdicts, stats):
     if len(obs) != len(cases):
         raise vlib.ToolError("rt paths returned %d of %d cases" % (len(obs), len(cases)))
 
-    # ADJUDICATE
-    a = vlib.run_tlc("Trace_Paths", "Trace_Paths.cfg", workers=12,
-                     env={"VERIF_CFG": cfg_path, "VERIF_TRACE": obs_path}, timeout=3000,
-                     tags=("BAD", "DRIFT"), metatag="c08a" + tag)
-    vlib.tlc_must_succeed(a, "Trace_Paths " + tag)
-    if a.distinct != len(obs) + 1:
-        raise vlib.ToolError("adjudication consumed %d of %d records" % (a.distinct, len(obs)))
-    bad = sorted(set(a.payloads("BAD")))
-    drift = sorted(set(a.payloads("DRIFT")))
+    # ADJUDICATE (in chunks, the JSON reader of TLC holds a whole chunk in memory)
+    bad, drift = [], []
+    CH = 60000
+    for off in range(0, len(obs), CH):
+        chunk = obs[off:off + CH]
+        cpath = obs_path + ".chunk"
+        vlib.write_ndjson(cpath, chunk)
+        a = vlib.run_tlc("Trace_Paths", "Trace_Paths.cfg", workers=12,
+                         env={"VERIF_CFG": cfg_path, "VERIF_TRACE": cpath}, timeout=3000,
+                         tags=("BAD", "DRIFT"), metatag="c08a" + tag, xmx="8g")
+        vlib.tlc_must_succeed(a, "Trace_Paths " + tag)
+        if a.distinct != len(chunk) + 1:
+            raise vlib.ToolError("adjudication consumed %d of %d records" % (a.distinct - 1, len(chunk)))
+        bad += [off + i for i in set(a.payloads("BAD"))]
+        drift += [off + i for i in set(a.payloads("DRIFT"))]
+        stats["states"] += a.distinct
+        stats["transitions"] += a.generated
+        os.remove(cpath)
+    bad, drift = sorted(bad), sorted(drift)
     stats["adjudicated"] += len(obs)
     stats["drift"] += len(drift)
     stats["pred_equal"] += len(obs) - len(drift)
@@ -107,7 +117,7 @@ def run(tier):
            "cases_where_result_is_error": stats["err_cases"],
            "end_to_end_exported_trees": e2e["trees"], "end_to_end_files": e2e["files"],
            "exhaustive": True,
-           "rule": "all (base spelling in 5) x (importing dir of depth<=D over {., .., d, e, x.y, d.ts}) x (imported path of depth<=D, 5 file names incl. x.ts.ts and j.js.ts), D=%d, import-esm off and on; each pair is one TLC state, replayed through the real import_path, judged by C08_Holds in TLC" % (2 if tier == "quick" else 3),
+           "rule": "all (base spelling in 5) x (importing dir of depth<=D over {., .., d, e, x.y, d.ts} (thorough: {., .., d, x.y})) x (imported path of depth<=D, 5 file names incl. x.ts.ts and j.js.ts), D=%d, import-esm off and on; each pair is one TLC state, replayed through the real import_path, judged by C08_Holds in TLC" % (2 if tier == "quick" else 3),
            "constants": {"MaxDepth": 2 if tier == "quick" else 3, "cwd": vlib.BUILD}}
     vlib.write_evidence(PROP, tier, "model_checking", cov,
                         ["Linux path semantics (the Windows branch of import_path is not executed)",
